@@ -513,5 +513,8 @@ pub fn run(p: &Params) -> Run {
     // the command-line program with --follow [--head] on a file that does not grow (oracle only; see cli.rs)
     let mut crng = Rng::new(p.seed ^ 0xC10C11);
     crate::cli::follow_stream(&mut run, &mut crng, p.n(6, 40));
+    // the whole program in follow mode: raw texts, a real growing file, every output format (Props/PipelineFollow.lean)
+    let mut frng = Rng::new(p.seed ^ 0xC10e2ef);
+    for focus in &["select", "print"] { crate::e2ef::stream(&mut run, &mut frng, p.n(100, 2000), focus); }
     run
 }
